@@ -39,3 +39,46 @@ contract(
     properties=("C17",),
     note="no `raises` clause: every exception pint may raise for a comment text must be caught (a comment never makes a model fail to load)",
 )
+
+# ---- C08: two definitions of one name ----------------------------------------------------------------------
+TValue = core.TU("Value")
+IS_EXPRESSION = core.uf("Value.is_Expression", TValue.sort(), z3.BoolSort())
+registry.EXTERNALS["isinstance:gotranx.atoms.Expression"] = lambda ctx, st, obj: (
+    SV(TBool, IS_EXPRESSION(obj.t)) if isinstance(obj, SV) and obj.ty == TValue else False)
+registry.EXTERNALS["Value.tree"] = lambda ctx, st, obj: SV(TNode, core.uf("Value.tree", TValue.sort(), TNode.sort())(obj.t))
+
+
+@registry.spec("same_class")
+def _same_class(ctx, st, a, b):
+    return SV(TBool, registry.tag_term("Atom", a.t) == registry.tag_term("Atom", b.t))
+
+
+@registry.spec("is_expression")
+def _is_expression(ctx, st, v):
+    return SV(TBool, IS_EXPRESSION(v.t))
+
+
+_orig_compare = I.Interp.ev_Compare
+
+
+def _ev_Compare(self, n, st):
+    # `type(a) is not type(b)` on model atoms: comparison of the class tags
+    import ast as _ast
+    if len(n.ops) == 1 and isinstance(n.ops[0], (_ast.Is, _ast.IsNot)):
+        l, r = self.ev(n.left, st), self.ev(n.comparators[0], st)
+        if isinstance(l, I.TypeOf) and isinstance(r, I.TypeOf):
+            eq = SV(TBool, registry.tag_term(l.v.ty.name, l.v.t) == registry.tag_term(r.v.ty.name, r.v.t))
+            return eq if isinstance(n.ops[0], _ast.Is) else V.py_not(eq)
+    return _orig_compare(self, n, st)
+
+
+I.Interp.ev_Compare = _ev_Compare
+
+contract(
+    TR + "_same_definition", params={"first": "Atom", "other": "Atom"}, ret="Bool",
+    ensures={"same_kind_and_same_value_or_tree":
+             "result == (same_class(first, other) and ite(is_expression(first.value) and is_expression(other.value), "
+             "first.value.tree == other.value.tree, first.value == other.value))"},
+    properties=("C08",),
+    note="the predicate TreeToODE.ode uses to reject a second, different definition of a name (kind clash, different right-hand side)",
+)
